@@ -2,6 +2,7 @@ import FluentProofs.ConstTieSyntax
 import FluentProofs.SpecLex
 import FluentProofs.SpecDedent
 import FluentProofs.SpecFuel
+import FluentProofs.SpecPatLoop
 /-!
 # C02 — well-formed FTL parses to exactly the tree the Fluent grammar assigns
 
@@ -35,6 +36,7 @@ UTF-8 fact used is `asciiThenBoundary_of_string`.  `rest s p` = the bytes of `s`
 namespace FluentProofs.C02
 open FluentModel FluentModel.Syntax FluentModel.SpecGrammar
 open FluentProofs.Parser FluentProofs.SpecLex FluentProofs.SpecDedent
+open FluentProofs.SpecRefine FluentProofs.PatLoop
 
 /-- the UTF-8 bytes of a string, as the parser model's source -/
 def bytesOf (str : String) : Src := str.toUTF8.data
@@ -213,6 +215,34 @@ theorem T2_common_indent_min (els : List RawEl) (c : Nat) (h : commonIndent els 
 theorem T2_pattern_normal_form (els : List RawEl) :
     NoAdjText (finishPattern els) ∧ ∀ e ∈ finishPattern els, nonEmptyEl e = true :=
   ⟨finishPattern_noAdj els, finishPattern_nonEmpty els⟩
+
+/-! ## T2/T3 — expression layer and pattern layer (refinement: the grammar accepts ⇒ the parser returns its tree) -/
+
+/-- **Expression layer.** For every spec fuel `m`, under the side condition `Surv` (see `T3_side_condition`):
+wherever the grammar's `InlineExpression`, `CallArguments`/`argument_list` (with the rules "no positional
+argument after a named one", "no duplicate name", callee shape), `inline_placeable` (term attribute not as
+placeable), `SelectExpression` (selector kinds) or `variant_list` (exactly one default, variant keys) accepts,
+the parser model's `getInline` / `getCallArguments` / `getCallArgsLoop` / `getPlaceable` + `getExpression` /
+`getVariants` return the same tree — spans resolved, adjacent text joined — and stop at the corresponding
+position (`ExprRef` spells out the eight statements). -/
+theorem T2_expression_layer (str : String) (hSurv : Surv (bytesOf str)) (m : Nat) : ExprRef (bytesOf str) m :=
+  exprRef_all (asciiThenBoundary_of_string str) hSurv m
+
+/-- **Pattern layer.** `Pattern ::= PatternElement+` followed by the abstract-syntax pass (dedent over all
+indented lines, blank lines as `\n`, join, trim) against `get_pattern` (the loop with line roles, blank lines,
+placeable-led lines, CRLF, `keptCommonIndent`, and `finishElements`): where the grammar accepts a pattern that is
+followed by what can follow a pattern (`PatFollow`), `getPattern` returns the same pattern after joining text and
+stops at the start of the first line that is not part of the pattern. -/
+theorem T3_pattern_layer (str : String) (hSurv : Surv (bytesOf str)) (m : Nat) : PatternRef (bytesOf str) m :=
+  patternRef_all (asciiThenBoundary_of_string str) hSurv m
+
+/-- **The side condition is exact about F30.**  `Surv` ("every non-blank text slice keeps a byte under the final
+trim") holds for every source in which each `\r` belongs to a `\r\n`; the witness of the known finding F30
+violates it (its last line is a lone carriage return). -/
+theorem T3_side_condition :
+    (∀ str : String, NoLoneCR (bytesOf str) → Surv (bytesOf str)) ∧
+    ¬ Surv (strBytes "a =\n  x\n \r").toArray :=
+  ⟨fun str h => surv_of_noLoneCR (asciiThenBoundary_of_string str) h, f30_witness_not_surv⟩
 
 /-! ## non-vacuity / sanity (tests on literals) -/
 
